@@ -10,11 +10,24 @@ func totalSec(tr Track) float64 {
 	return float64(d) / float64(tr.Timescale)
 }
 
+// SegGenOpt are the opt-in extras of GenSegmenterInputOpt.
+type SegGenOpt struct {
+	// WideStep: one case in sixteen gets a segment duration whose tick count (segDurMS * timescale / 1000 of the
+	// video track) lies at or just above 2^32 (a value that a 32-bit step variable cannot hold): far beyond the
+	// end of every generated file, so the documented result is a single segment.
+	WideStep bool
+}
+
 // GenSegmenterInput draws a progressive file that examples/segmenter accepts (one AVC video track that starts with
 // a sync sample and has non-negative presentation times, optionally one AAC audio track of comparable length), a
-// tool mode ("single" | "mux" | "lazy") and a segment duration in milliseconds. forceStss: give the video track
-// an stss box also when all its samples are sync samples (forcedStss reports that this was done).
+// tool mode ("single" | "mux" | "lazy" | "muxlazy" = -m -lazy) and a segment duration in milliseconds. forceStss:
+// give the video track an stss box also when all its samples are sync samples (forcedStss reports that this was done).
 func GenSegmenterInput(t *rapid.T, maxSamples int, forceStss bool) ([]Track, ProgLayout, string, uint64, bool) {
+	return GenSegmenterInputOpt(t, maxSamples, forceStss, SegGenOpt{})
+}
+
+// GenSegmenterInputOpt is GenSegmenterInput with the opt-in extras of SegGenOpt.
+func GenSegmenterInputOpt(t *rapid.T, maxSamples int, forceStss bool, opt SegGenOpt) ([]Track, ProgLayout, string, uint64, bool) {
 	// default stsd of mp4build = harvested avc1 (video) and mp4a (audio): codecs the tool supports
 	tracks := GenTracks(t, GenOpt{MinTracks: 1, MaxTracks: 2, MaxSamples: maxSamples})
 	video := &tracks[0]
@@ -91,7 +104,7 @@ func GenSegmenterInput(t *rapid.T, maxSamples int, forceStss bool) ([]Track, Pro
 		lay.Tracks[vi].Stss = true // legal also when all samples are sync samples
 		forcedStss = true
 	}
-	mode := rapid.SampledFrom([]string{"single", "mux", "lazy"}).Draw(t, "mode")
+	mode := rapid.SampledFrom([]string{"single", "mux", "lazy", "muxlazy"}).Draw(t, "mode")
 	// segment duration: around the distance between sync samples, a fraction of the whole, tiny, beyond the end
 	v := tracks[vi]
 	ts := uint64(v.Timescale)
@@ -123,6 +136,10 @@ func GenSegmenterInput(t *rapid.T, maxSamples int, forceStss bool) ([]Track, Pro
 		segDurMS = totalMS + uint64(rapid.IntRange(0, 1000).Draw(t, "segDurBeyond"))
 	default:
 		segDurMS = rapid.Uint64Range(1, totalMS+1).Draw(t, "segDurAny")
+	}
+	if opt.WideStep && rapid.IntRange(0, 15).Draw(t, "segDurWideStep") == 0 {
+		// smallest -d whose tick count reaches 2^32, plus a little
+		segDurMS = ((1<<32)*1000+ts-1)/ts + uint64(rapid.IntRange(0, 3).Draw(t, "segDurWideStepPlus"))
 	}
 	if segDurMS == 0 {
 		segDurMS = 1
